@@ -173,3 +173,111 @@ class disable_pack:
 
     def pure_spec(old, a):
         return PROTOCOLS["Widget"].call_quiet(cur(), old._original_widget, "pack", dict(size=a.size, focus=False))
+
+
+# ============================================================================================ the delegating mixin
+# WidgetWrap, WidgetPlaceholder, AttrMap, PopUpLauncher, LineBox forward the widget interface to one attribute through
+# `delegate_to_widget_mixin(attribute_name)`: render is a method of the mixin class, rows / pack / sizing are
+# properties returning the delegate's bound method.
+MIX = "urwid/widget/widget.py:delegate_to_widget_mixin.<locals>.DelegateToWidgetMixin."
+WRAP = Obj(urwid.WidgetWrap, dict(_wrapped_widget=WIDGET))
+PLACEHOLDER = Obj(_wd.WidgetPlaceholder, dict(_original_widget=WIDGET))
+
+
+def _mixin_render(alias, shape, attr, cls):
+    @contract(MIX + "render", property="C01", alias=alias, replayable=False, defcls=cls)
+    class _r:
+        self_shape = shape
+        params = dict(size=ANYSIZE, focus=Bool)
+        result = CCANVAS
+        raises = ()
+
+        def requires(s, a):
+            return size_ok(a.size)
+
+        def ensures(old, s, a, r):
+            W = PROTOCOLS["Widget"]
+            w = old.fields[attr]
+            child = W.call_quiet(cur(), w, "render", dict(size=a.size, focus=a.focus))
+            yield "size-is-the-delegates", both(r.ncols == child.ncols, r.nrows == child.nrows)
+            if len(a.size) == 2:
+                yield "box-size-as-asked", both(r.ncols == a.size[0], r.nrows == a.size[1])
+            elif len(a.size) == 1:
+                yield "flow-cols-as-asked", r.ncols == a.size[0]
+                yield "flow-rows-equal-delegates-rows", r.nrows == W.call_quiet(cur(), w, "rows", dict(size=a.size, focus=a.focus))
+            else:
+                pk = W.call_quiet(cur(), w, "pack", dict(size=a.size, focus=a.focus))
+                yield "fixed-size-equals-delegates-pack", both(r.ncols == pk[0], r.nrows == pk[1])
+            yield "cursor-is-the-delegates", opt_eq_shift(r.cursor, child.cursor, 0, 0)
+            yield "cursor-inside", canvas_wf(r)
+            rc = calls("render")
+            yield "delegate-rendered-once-same-size-and-focus", both(len(rc) == 1, eq(rc[0][1], w) if rc else False, eq(rc[0][3]["size"], a.size) if rc else False, eq(rc[0][3]["focus"], a.focus) if rc else False)
+            yield "frame", eq(s.fields[attr], old.fields[attr])
+
+    _r.__name__ = f"mixin_render_{alias}"
+    return _r
+
+
+mixin_render_wrapped = _mixin_render("wrapped-widget", WRAP, "_wrapped_widget", urwid.WidgetWrap.__mro__[1])
+mixin_render_original = _mixin_render("original-widget", PLACEHOLDER, "_original_widget", _wd.WidgetPlaceholder.__mro__[1])
+
+
+def _is_bound_method_of(result, w, name):
+    """The value is the delegate's own bound method `name` (an opaque protocol method of that very widget): calling it
+    IS calling the delegate, so rows / pack / sizing of the wrapper are the delegate's for every argument."""
+    from pyvc.protocol import OpaqueCall
+
+    return isinstance(result, OpaqueCall) and result.name == name and str(result.recv.e) == str(w.e)
+
+
+def _mixin_getter(name, alias, shape, attr, cls):
+    @contract(MIX + name, property="C01", alias=alias, replayable=False, defcls=cls)
+    class _g:
+        self_shape = shape
+        params = {}
+        raises = ()
+
+        def ensures(old, s, a, result):
+            yield f"is-the-delegates-own-{name}", _is_bound_method_of(result, old.fields[attr], name)
+            yield "asks-no-one", len(calls()) == 0
+            yield "frame", eq(s.fields[attr], old.fields[attr])
+
+    _g.__name__ = f"mixin_{name}_{alias}"
+    return _g
+
+
+for _n in ("rows", "pack", "sizing", "selectable"):
+    _mixin_getter(_n, "wrapped-widget", WRAP, "_wrapped_widget", urwid.WidgetWrap.__mro__[1])
+    _mixin_getter(_n, "original-widget", PLACEHOLDER, "_original_widget", _wd.WidgetPlaceholder.__mro__[1])
+
+
+# ============================================================================================ WidgetDecoration / WidgetDisable: sizing
+DECORATION = Obj(_wd.WidgetDecoration, dict(_original_widget=WIDGET))
+
+
+def _sizing_contract(clsname, shape):
+    @contract(WD + clsname + ".sizing", property="C01", replayable=False)
+    class _s:
+        """`sizing()` tells the truth: a decoration that draws nothing of its own supports exactly the modes of the
+        widget it shows (its render / rows / pack hand the size on unchanged)."""
+        self_shape = shape
+        params = {}
+        result = Opaque("SizingSet")
+        raises = ()
+
+        def ensures(old, s, a, result):
+            W = PROTOCOLS["Widget"]
+            want = W.call_quiet(cur(), old._original_widget, "sizing", {})
+            yield "exactly-the-childs-modes", eq(result, want)
+            for mode in (Sizing.BOX, Sizing.FLOW, Sizing.FIXED):
+                yield f"{mode.value}-iff-child-does", eq(PROTOCOLS["SizingSet"].contains(cur(), result, mode), sizing_has(old._original_widget, mode))
+            sc = calls("sizing")
+            yield "asks-the-child-once", both(len(sc) == 1, eq(sc[0][1], old._original_widget) if sc else False)
+            yield "frame", eq(s._original_widget, old._original_widget)
+
+    _s.__name__ = f"sizing_{clsname}"
+    return _s
+
+
+decoration_sizing = _sizing_contract("WidgetDecoration", DECORATION)
+disable_sizing = _sizing_contract("WidgetDisable", DISABLE)
